@@ -82,7 +82,7 @@ def on_any_view(out, views, fn):
     if trials:
         # it holds on no reading: report the first reading on which something definite was found (not
         # merely "cannot be decided on this reading"), else the first one
-        undecided = re.compile(r"\|(anchor-missing|anchor|no-block-loop|shape|limit)$")
+        undecided = re.compile(r"\|(anchor-missing|anchor|no-block-loop|shape|limit|undecided)$")
         for tr in trials:
             if any(not undecided.search(v["key"]) for v in tr.violations):
                 out.adopt(tr)
